@@ -118,15 +118,17 @@ CLAIMED.update({
         text='Pairing is proved along the whole request path with index-based history functions: _enqueue records uid -> future (fresh counter uid) before enqueuing; '
              'get_input queues exactly one uid per value handed to Worker.stream; stream yields the j-th outcome for the j-th input; the main loops put output j under '
              'uid j (single and batched, zip(uids, yy)); the ensemble/switch forwarders send (uid, x) to every / the selected member; the gather loop resolves exactly '
-             'ledger[uid]. EnsembleServlet._dequeue (mutable dict-of-list entries) is outside the by-value model: bounded runtime stand-in, labelled.',
-        technique='contract-based deductive verification: pyvc VCs over index-based histories across worker/servlet/server functions; bounded stand-in for one function',
+             'ledger[uid]. EnsembleServlet._dequeue is proved per item over an abstract catalog (uid -> count, slots): member #i\'s value goes into slot i of the entry of its own uid, '
+             'and every answer goes out under the uid just received, once.',
+        technique='contract-based deductive verification: pyvc VCs over index-based histories across worker/servlet/server functions, abstract catalog model for the ensemble collector, z3',
         ref='DESIGN.md 3/C02'),
     'C04': dict(
         text='Exceptional branches of the same units: a preprocess failure or an incoming exception value is short-circuited under its own uid and never reaches call/the batch '
              'buffer/any member; a failing call yields its own exception wrapped in RemoteException under its own uid; a failing batched call fails exactly the uids of that '
              'batch; forwarders pass exception values through (wrapped); the gather loop sets the unwrapped exception on that future only; C15 units give type/args/text. '
-             'Ensemble fail_fast/all-failed rules: bounded runtime stand-in over all arrival orders of three members.',
-        technique='contract-based deductive verification: exceptional postconditions in pyvc units shared with C02/C09/C15; bounded stand-in for EnsembleServlet._dequeue',
+             'Ensemble fail_fast / all-failed rules are proved on EnsembleServlet._dequeue (first exception answers once with EnsembleError and later results are dropped; without fail_fast the list is '
+             'replaced by EnsembleError exactly when every slot is a RemoteException). The EnsembleError constructor/pickling branch of C15 stays a bounded stand-in.',
+        technique='contract-based deductive verification: exceptional postconditions in pyvc units shared with C02/C09/C15, z3; bounded stand-in only for the EnsembleError branch of C15',
         ref='DESIGN.md 3/C04'),
 })
 
